@@ -3,6 +3,7 @@ package charset
 import (
 	"bytes"
 	"encoding/xml"
+	"io"
 	"strings"
 	"unicode/utf8"
 
@@ -146,6 +147,11 @@ func FromXML(content []byte) string {
 func fromXML(content []byte) string {
 	content = trimLWS(content)
 	dec := xml.NewDecoder(bytes.NewReader(content))
+	// Only the declaration is inspected, never the re-encoded document, so any
+	// declared encoding can be passed through unchanged.
+	dec.CharsetReader = func(_ string, input io.Reader) (io.Reader, error) {
+		return input, nil
+	}
 	rawT, err := dec.RawToken()
 	if err != nil {
 		return ""
